@@ -142,6 +142,11 @@ def cases(tier, seed):
                                    core.pick(hk + ["grid"], 3)]
                                if variant in ("grid", "gridc") else None,
                                "opts": o,
+                               # a logarithmic x axis over x values that are
+                               # not all positive
+                               "negx": bool(o.get("xlog")) and nx >= 2 and
+                               variant in ("z", "multi", "yerr", "grid") and
+                               core.pick(hk + ["negx", t], 2) == 0,
                                "stored": core.pick(hk + ["stored", t], 3)}
         # many series: the legend -> colour bar switch
         for nz in ((10, 11) if tier == "quick" else (9, 10, 11, 12)):
@@ -213,6 +218,15 @@ def worker_init():
 # --------------------------------------------------------------------------- #
 
 
+# x values for a logarithmic x axis that cannot show all of them: the points
+# are still the dataset's finite pairs (the axis hides what it cannot show)
+XS_NEG = [-2.0, 0.0, 4.0]
+
+
+def xs_of(case):
+    return XS_NEG if case.get("negx") else XS
+
+
 def yval(ix, iz, ir=0, iq=0, var=0):
     return 1.0 + ix + 10.0 * iz + 100.0 * ir + 1000.0 * iq + 0.25 * var
 
@@ -236,7 +250,7 @@ def make_line_ds(case):
     for (ix, iz) in case["mask"]:
         y[ix, iz] = bad
     dims = ["x", "z", "r", "q"]
-    coords = {"x": XS[:nx], "z": zs, "r": RV[:nr], "q": QV[:nq]}
+    coords = {"x": xs_of(case)[:nx], "z": zs, "r": RV[:nr], "q": QV[:nq]}
     data = {"y": (dims, y)}
     ye = 0.1 + 0.01 * np.arange(y.size).reshape(shape)
     xe = 0.2 + 0.01 * np.arange(y.size).reshape(shape)
@@ -248,7 +262,8 @@ def make_line_ds(case):
     # x given by a variable over the same dimensions, stored in another order
     xv = np.empty(shape)
     for idx in np.ndindex(*shape):
-        xv[idx] = XS[idx[0]] + 0.01 * idx[1] + 0.001 * idx[2] + 0.0001 * idx[3]
+        xv[idx] = xs_of(case)[idx[0]] + 0.01 * idx[1] + 0.001 * idx[2] \
+            + 0.0001 * idx[3]
     data["xv"] = (["z", "x", "r", "q"], xv.transpose(1, 0, 2, 3))
     data["cline"] = (("z",), np.array([1.5 + 2.0 * i for i in range(nz)]))
     # (the smallest colour value is exactly zero)
@@ -510,7 +525,7 @@ def check_lines(case):
                 sl = (slice(None), iz) + ((ir,) if nr == 2 else ()) + (
                     (iq,) if nq == 2 else ())
                 yy = yarr[sl]
-                xx = np.array(XS[:nx])
+                xx = np.array(xs_of(case)[:nx])
                 if variant == "xvar":
                     xx = before["xv"].transpose(*canon).values.reshape(
                         yarr.shape)[sl]
